@@ -185,6 +185,11 @@ func (iter *MultisetCombinationIterator) Next() bool {
 		return true
 	}
 
+	if iter.k == 0 {
+		//The empty multiset has been visited and it is the only one. Q4 needs an element to pick up.
+		return false
+	}
+
 	//Q4
 	x := 0
 	j := iter.j
